@@ -762,6 +762,21 @@ func (fr *Frame) loopHead(b *ssa.BasicBlock, st *State, r string) {
 			vc.note("loop %d of %s has no invariant (treated as invariant true)", ord, vc.name)
 		}
 	}
+	// snapshots taken at loop entry (`loop N let B = e`): usable in this loop's clauses and below
+	for _, l := range ls.Lets {
+		ctx := fr.specCtx(st, fr.entry, b, 0)
+		t, err := ctx.eval(l.E)
+		if err != nil {
+			vc.unsupportedf("loop %d let %s: %v", ord, l.Text, err)
+			continue
+		}
+		n := vc.fresh("let_" + l.Name)
+		vc.define(n, t.Sort, t.S)
+		if fr.letVals == nil {
+			fr.letVals = map[string]Term{}
+		}
+		fr.letVals[l.Name] = Term{n, t.Sort, t.T}
+	}
 	// trusted facts about the environment at loop entry (listed as assumptions in the evidence)
 	for _, as := range ls.Assumes {
 		ctx := fr.specCtx(st, fr.entry, b, 0)
@@ -986,6 +1001,18 @@ func (fr *Frame) loopModifies(h *ssa.BasicBlock) []string {
 				set[vc.mapLenComp()] = true
 			case *ssa.Send:
 				set[vc.chsentComp()] = true
+				if fr.spec != nil {
+					for _, at := range fr.spec.Ats {
+						if at.Ghost != nil && strings.HasPrefix(at.Callee, "send:") && sendChanMatches(ins, strings.TrimPrefix(at.Callee, "send:")) {
+							for _, g := range vc.db.Ghosts {
+								if g.Name == at.Ghost.Name {
+									vc.comp(g.Name, g.Sort)
+									set[g.Name] = true
+								}
+							}
+						}
+					}
+				}
 			case *ssa.UnOp:
 				if ins.Op == token.ARROW {
 					set[vc.chposComp()] = true
